@@ -314,3 +314,45 @@ def straightline_return(func: ast.AST) -> Optional[ast.AST]:
             return inline_locals(s.value, env)
         return None
     return None
+
+
+def symbolic_state_after(func: ast.AST, selfname: str = "self"):
+    """Symbolically run a straight-line method body: returns (attrs, locals) where attrs maps 'self.x' -> final expression in terms of the
+    *initial* attribute values (written `self.x`) and parameters.  None if the body has control flow other than asserts / docstring / calls."""
+    env: Dict[str, ast.AST] = {}
+    attrs: Dict[str, ast.AST] = {}
+
+    def cur(expr):
+        # 1. attribute reads see the current value (or INIT.x, the value on entry); 2. locals are inlined (they are already in INIT terms)
+        import copy
+
+        class A(ast.NodeTransformer):
+            def visit_Attribute(self, node):
+                if isinstance(node.value, ast.Name) and node.value.id == selfname:
+                    key = u(node)
+                    if key in attrs:
+                        return copy.deepcopy(attrs[key])
+                    return ast.Attribute(value=ast.Name(id="INIT", ctx=ast.Load()), attr=node.attr, ctx=ast.Load())
+                self.generic_visit(node)
+                return node
+        e = ast.fix_missing_locations(A().visit(copy.deepcopy(expr)))
+        return inline_locals(e, env)
+    for s in func.body:
+        if isinstance(s, ast.Expr) and isinstance(s.value, (ast.Constant, ast.Call)):
+            continue
+        if isinstance(s, ast.Assert):
+            continue
+        if isinstance(s, ast.Assign) and len(s.targets) == 1:
+            t = s.targets[0]
+            v = cur(s.value)
+            if isinstance(t, ast.Name):
+                env[t.id] = v
+                continue
+            if isinstance(t, ast.Attribute) and isinstance(t.value, ast.Name) and t.value.id == selfname:
+                attrs[u(t)] = v
+                continue
+            return None
+        if isinstance(s, ast.Return):
+            break
+        return None
+    return attrs, env
